@@ -66,6 +66,31 @@ Second generation (class GenR; Gen/CommitmentPolicyGen.v): functions over struct
                calls listed by the caller of the translator as *opaque* (here: LDK's `htlc_timeout_tx_weight(&setup.features())`
                and `htlc_success_tx_weight(&setup.features())`, where `setup` must be the unshadowed parameter): their
                answers are parameters of the generated function
+  added for Gen/EnforcementRulesGen.v (the commitment-number rules):
+               methods of `impl Trait for S { .. }` and provided methods of `pub trait T { .. }` (a declaration
+               without body is not a definition; the caller checks that the validators do not override them);
+               a struct declared in another generated file (EnforcementState = the record `res` of
+               Gen/EnforcementGen.v) and its translated methods there (`x.m(..)` -> `EnforcementGen.gen_m prof x ..`);
+               `Result<T, ValidationError>` for an opaque T (`Ok(v)` = `OkR v`); `&mut T` parameters that are only
+               read, and one `&mut S` parameter p that is updated by statements `p.m(args);` for a translated
+               `&mut self` method m of S at the top level of the body: the function's Ok then carries the updated
+               value (`p <- gen_m prof p args ;; .. Val (OkR p)`), and `?` / policy_err! after an update are refused;
+               `match opt { None => arm, Some(x) => arm }` as a statement (arms: a block or an `if` without else;
+               `_ <-? (match o with None => .. | Some x => .. end) ;; rest`);
+               `==` / `!=` on opaque values and on Options of them (equality of identities: `=?`, opt_id_eqb),
+               `Some(v)`, `.as_ref()`, `.clone()` on them, `.unwrap()` / `.expect("..")` (expect_some: a panic on None);
+               `a && b` / `a || b` whose right operand can panic: it is evaluated only when the left one does not
+               decide (`if a then <b> else Val false`);
+               `#[cfg(..)]` on a statement that is logging (dropped in every configuration); `};`;
+               more dropped logging: dbgvals!(..), policy_log!(self, tag, fmt, variables..) (formats its message
+               whatever the log level: only variables may be formatted), and a leading
+               `if let Some(x) = &opt { .. }` whose block only logs and binds the results of helpers the caller lists
+               as consumed by the log lines only (delta_offered_htlcs / delta_received_htlcs: lazy iterators);
+               formatting an opaque value ({} / {:?} of a key or a commitment content) is assumed not to panic;
+               opaque calls: (i) a call of a method of self on exactly the unshadowed parameters of the function,
+               followed by `?` (`self.validate_commitment_tx(estate, ..)`, translated elsewhere): its answer is a
+               parameter of type `trap (result unit)`; (ii) pure functions the caller lists
+               (`PublicKey::from_secret_key`, `Secp256k1::signing_only`): uninterpreted function parameters.
   refused    : a Rust binder whose name the generated text uses itself (prof, warn, policy, Val, t<digits>, gen_.., ..), a
                `let` that shadows a variable in scope, `return`, `else`
                branches of statements, `match`, `&mut`, closures anywhere else, struct literals, everything not listed.
@@ -87,7 +112,7 @@ TOK = re.compile(r"""
   | (?P<str>"(?:[^"\\]|\\.)*")
   | (?P<num>\d[\d_]*(?:u64|u32|usize|u16|u8)?)
   | (?P<id>[A-Za-z_][A-Za-z0-9_]*)
-  | (?P<op>\.\.|->|==|!=|<=|>=|&&|\|\||::|[-+*/%<>=!&|(){}\[\];:,.?])
+  | (?P<op>\.\.|->|=>|==|!=|<=|>=|&&|\|\||::|[-+*/%<>=!&|(){}\[\];:,.?#])
 """, re.X | re.S)
 
 
@@ -150,8 +175,11 @@ def norm_type(t, known=None):
     if known is not None:
         if t in ("u16", "str"):
             return t
-        if t in known:
+        if t in known and known[t] != "path":
             return known[t]
+        m = re.match(r"^Result<([A-Z][A-Za-z0-9]*),ValidationError>$", t)
+        if m and m.group(1) not in known:
+            return "result:id"            # Ok carries an opaque value
         m = re.match(r"^Vec<([A-Z][A-Za-z0-9]*)>$", t)
         if m and known.get(m.group(1), "").startswith("struct:"):
             return "vec:" + m.group(1)
@@ -242,7 +270,7 @@ class P:
         self.eat("fn")
         name = self.eat(kind="id")
         self.eat("(")
-        params, selfmode = [], None
+        params, selfmode, mut_params = [], None, []
         while not self.at(")"):
             if self.at("&"):
                 self.eat("&")
@@ -255,7 +283,10 @@ class P:
             else:
                 x = self.eat(kind="id")
                 self.eat(":")
+                self.saw_mut = False
                 params.append((x, self.type()))
+                if self.saw_mut:
+                    mut_params.append(x)
             if self.at(","):
                 self.eat(",")
         self.eat(")")
@@ -264,13 +295,16 @@ class P:
             self.eat("->")
             ret = self.type()
         body = self.block()
-        return dict(name=name, params=params, selfmode=selfmode or "free", ret=ret, body=body)
+        return dict(name=name, params=params, selfmode=selfmode or "free", ret=ret, body=body, mut_params=mut_params)
 
     def type(self):
         if self.known is not None and self.at("&"):
             self.eat("&")                     # a shared borrow is read like the value it borrows
             if self.at("mut"):
-                raise GenError("a `&mut` parameter is outside the fragment")
+                # no statement form of the second generation writes through a parameter or hands it to something
+                # that could (calls of `&mut self` methods are refused): the parameter is only read
+                self.eat("mut")
+                self.saw_mut = True
             return self.type()
         if self.known is not None and self.at("("):
             self.eat("(")
@@ -305,6 +339,35 @@ class P:
         self.eat("{")
         stmts, tail = [], None
         while not self.at("}"):
+            if self.known is not None and self.at(";"):
+                self.eat(";")                 # `};` : an empty statement
+                continue
+            if self.known is not None and self.at("#"):
+                # #[attr] in front of a statement
+                self.eat("#")
+                self.eat("[")
+                depth, toks = 1, []
+                while depth:
+                    kk, t = self.peek()
+                    if kk == "eof":
+                        raise GenError("unterminated attribute")
+                    self.i += 1
+                    if t == "[":
+                        depth += 1
+                    elif t == "]":
+                        depth -= 1
+                        if depth == 0:
+                            break
+                    toks.append(t)
+                n0 = len(stmts)
+                inner_ss, inner_tail = P.block_one(self)
+                if inner_tail is not None or len(inner_ss) != 1:
+                    raise GenError("an attribute on anything but a statement is outside the fragment")
+                stmts.append(("attr", "".join(toks), inner_ss[0]))
+                continue
+            if self.known is not None and self.at("match"):
+                stmts.append(self.match_stmt())
+                continue
             if self.at("const"):
                 self.eat("const")
                 x = self.eat(kind="id")
@@ -384,6 +447,72 @@ class P:
         self.eat("}")
         # a trailing assignment without `;` inside a loop body arrives as ("assign") already
         return stmts, tail
+
+    def block_one(self):
+        """exactly one statement, parsed by the statement loop of block(): the tokens of the statement are wrapped in
+        braces for it"""
+        start = self.i
+        # find the end of the statement: the first `;` at depth 0, or the `}` closing a block at depth 0
+        depth, j = 0, self.i
+        while True:
+            kk, t = self.t[j] if j < len(self.t) else ("eof", "")
+            if kk == "eof":
+                raise GenError("statement after an attribute does not end")
+            if t in "([{" and kk == "op":
+                depth += 1
+            elif t in ")]}" and kk == "op":
+                depth -= 1
+                if depth == 0 and t == "}":
+                    j += 1
+                    break
+            elif t == ";" and depth == 0:
+                j += 1
+                break
+            j += 1
+        sub = P([("op", "{")] + self.t[start:j] + [("op", "}"), ("eof", "")], self.known)
+        res = sub.block()
+        self.i = j
+        return res
+
+    def match_stmt(self):
+        """match e { None => <arm> Some(x) => <arm> } as a statement; an arm is a block or an `if` without else"""
+        self.eat("match")
+        scrut = self.expr()
+        self.eat("{")
+        arms = {}
+        while not self.at("}"):
+            if self.at("None"):
+                self.eat("None")
+                key, var = "None", None
+            else:
+                self.eat("Some")
+                self.eat("(")
+                var = self.eat(kind="id")
+                self.eat(")")
+                key = "Some"
+            self.eat("=>")
+            if self.at("{"):
+                blk = self.block()
+            elif self.at("if"):
+                e = self.if_expr()
+                if e[0] != "if_stmt":
+                    raise GenError("a match arm that is an if/else or has a value is outside the fragment")
+                blk = ([e], None)
+            else:
+                raise GenError("a match arm that is neither a block nor an `if` is outside the fragment")
+            if blk[1] is not None:
+                if blk[1][0] != "macro":
+                    raise GenError("a match arm with a value is outside the fragment")
+                blk = (blk[0] + [("expr", blk[1])], None)
+            if self.at(","):
+                self.eat(",")
+            if key in arms:
+                raise GenError("match with two %s arms" % key)
+            arms[key] = (var, blk)
+        self.eat("}")
+        if set(arms) != {"None", "Some"}:
+            raise GenError("only `match <option> { None => .., Some(x) => .. }` is inside the fragment")
+        return ("match_opt", scrut, arms["None"][1], arms["Some"][0], arms["Some"][1])
 
     def if_expr(self):
         self.eat("if")
@@ -563,7 +692,7 @@ class P:
                 self.eat("::")
                 nxt = self.eat(kind="id")
                 v = "%s::%s" % (v, nxt) if v in ("u32", "u64", "usize", "u128") \
-                    or (self.known is not None and self.known.get(v, "").startswith("enum:")) else nxt
+                    or (self.known is not None and (self.known.get(v, "").startswith("enum:") or self.known.get(v) == "path")) else nxt
             if self.at("!"):              # macro invocation: (receiver, "tag", format arguments ...)
                 self.eat("!")
                 self.eat("(")
@@ -1205,7 +1334,8 @@ def generate_enforcement(repo):
     path = os.path.join(repo, "vls-core", "src", "policy", "validator.rs")
     src = open(path).read()
     names = ["set_next_counterparty_commit_num", "set_next_counterparty_revoke_num",
-             "get_previous_counterparty_point", "get_previous_counterparty_commit_info"]
+             "get_previous_counterparty_point", "get_previous_counterparty_commit_info",
+             "set_next_holder_commit_num"]
     fields = struct_fields(src, "EnforcementState", skip_unknown=True)
     methods, texts = {}, {}
     for n in names:
@@ -1320,19 +1450,33 @@ def match_brace(bl, i):
         j += 1
 
 
-def method_source(src, impl, name):
-    """text of `fn name(..) { .. }` inside the inherent `impl <impl> { .. }` blocks of a file: exactly one"""
+def method_source(src, impl, name, header=None):
+    """text of `fn name(..) { .. }` inside the `impl <impl> { .. }` blocks of a file (or the blocks opened by `header`,
+    e.g. "impl Validator for SimpleValidator", "pub trait Validator"): exactly one definition with a body"""
     bl = blank(src)
     found = []
-    for im in re.finditer(r"\nimpl %s\s*\{" % re.escape(impl), bl):
+    head = r"\n%s\s*\{" % re.escape(header) if header else r"\nimpl %s\s*\{" % re.escape(impl)
+    for im in re.finditer(head, bl):
         lo = im.end() - 1
         hi = match_brace(bl, lo)
         for m in re.finditer(r"\n\s*(?:pub(?:\([a-z]+\))?\s+)?fn %s\s*\(" % re.escape(name), bl[lo:hi]):
             start = lo + m.start()
-            b = bl.index("{", start)
-            found.append(src[start:match_brace(bl, b) + 1])
+            # the signature ends at the first `{` (a body) or `;` (a declaration without body) outside parentheses
+            depth, j = 0, bl.index("(", start)
+            while True:
+                ch = bl[j]
+                if ch in "([":
+                    depth += 1
+                elif ch in ")]":
+                    depth -= 1
+                elif depth == 0 and ch in "{;":
+                    break
+                j += 1
+            if bl[j] == ";":
+                continue
+            found.append(src[start:match_brace(bl, j) + 1])
     if len(found) != 1:
-        raise GenError("fn %s: %d definitions in `impl %s`" % (name, len(found), impl))
+        raise GenError("fn %s: %d definitions with a body in `%s`" % (name, len(found), header or "impl " + impl))
     return found[0]
 
 
@@ -1389,6 +1533,10 @@ class GenR(Gen):
         self.known = known
         self.sig_opaque = {}              # (owner, name) -> opaque parameters of a translated method
         self.pure = 0
+        self.coq_struct = {}              # struct name -> (record type, projection prefix) when declared in another file
+        self.coq_fn = {}                  # (owner, name) -> Gallina name of a method translated into another file
+        self.opaque_fns = {}              # path -> (parameter name, [argument types], result type): uninterpreted pure fns
+        self.lazy_helpers = ()            # methods whose results are only handed to logging macros
 
     def coq_type(self, t):
         if t in WIDTH or t == "id":
@@ -1401,8 +1549,17 @@ class GenR(Gen):
             return "option N"
         if t == "vec":
             return "list N"
+        if t.startswith("struct:") and t[7:] in self.coq_struct:
+            return self.coq_struct[t[7:]][0]
         if t.startswith("struct:") or t.startswith("enum:"):
             return t.split(":", 1)[1]
+        if t == "result:id":
+            return "(result N)"
+        if t == "comp:result_unit":
+            return "(trap (result unit))"
+        if t.startswith("fn:"):
+            args, ret = t[3:].split("->")
+            return "(%s)" % " -> ".join([self.coq_type(a) for a in args.split(",") if a] + [self.coq_type(ret)])
         if t.startswith("vec:"):
             return "list %s" % t[4:]
         if t.startswith("tuple:"):
@@ -1413,7 +1570,7 @@ class GenR(Gen):
 
     def binder(self, x, code=None, env=None):
         if (x in RESERVED and not (x == "policy" and code == "policy")) or re.match(r"^(t\d+|gen_.*|mk_.*)$", x) \
-                or any(x == pn for _, _, pn, _ in self.opaque):
+                or any(x == pn for _, _, pn, _ in self.opaque) or any(x == v[0] for v in self.opaque_fns.values()):
             raise GenError("the name %s is used by the generated text itself: binding it is outside the fragment" % x)
         if not re.match(r"^[a-z_][a-z0-9_]*$", x):
             raise GenError("binder %s is outside the fragment" % x)
@@ -1423,7 +1580,18 @@ class GenR(Gen):
         return x
 
     def tagged(self):
-        return self.cur["ret"] == "result_unit"
+        return self.cur["ret"] in ("result_unit", "result:id")
+
+    PRINTABLE = Gen.PRINTABLE + ("id", "opt_id")     # {} / {:?} of a key, a point, a commitment content: assumed not to panic
+    LOGGING = ("debug", "trace", "info", "warn", "dbgvals", "policy_log")
+
+    def proj(self, sn, f, c):
+        pre = self.coq_struct[sn][1] if sn in self.coq_struct else sn
+        return "(%s_%s %s)" % (pre, f, c)
+
+    def use_opaque(self, pname, pty):
+        if (pname, pty) not in self.opaque_used:
+            self.opaque_used.append((pname, pty))
 
     # ---- expressions
     def expr(self, e, env, want=None):
@@ -1451,7 +1619,7 @@ class GenR(Gen):
             raise GenError("unknown variable %s" % x)
         if k == "field":
             if e[1] == ("var", "self") and self.owner == self.validator:
-                if e[2] != "policy":
+                if e[2] != "policy" or self.policy_struct is None:
                     raise GenError("self.%s of the validator is outside the fragment" % e[2])
                 return [], "policy", "struct:" + self.policy_struct
             b, c, t = self.expr(e[1], env)
@@ -1461,7 +1629,7 @@ class GenR(Gen):
             ft = dict(self.structs[sn]).get(e[2])
             if ft is None:
                 raise GenError("%s.%s: no such field, or its type is outside the fragment" % (sn, e[2]))
-            return b, "(%s_%s %s)" % (sn, e[2], c), ft
+            return b, self.proj(sn, e[2], c), ft
         if k == "tuple":
             bs, cs, ts = [], [], []
             for x in e[1]:
@@ -1483,17 +1651,43 @@ class GenR(Gen):
                     for v, vt in vars_.items():
                         if env.get(v) != vt or v in self.rebound:
                             raise GenError("%s: %s is not the parameter of type %s here" % (pname, v, vt))
-                    if (pname, pty) not in self.opaque_used:
-                        self.opaque_used.append((pname, pty))
+                    if pty.startswith("comp:"):
+                        raise GenError("%s: a Result that is not followed by `?` is outside the fragment" % pname)
+                    self.use_opaque(pname, pty)
                     return [], pname, pty
+            if e[1] in self.opaque_fns:
+                pname, atys, rty = self.opaque_fns[e[1]]
+                if len(e[2]) != len(atys):
+                    raise GenError("%s with %d arguments" % (e[1], len(e[2])))
+                bs, cs = [], []
+                for a_, at in zip(e[2], atys):
+                    b_, c_, t_ = self.expr(a_, env, at)
+                    if t_ != at:
+                        raise GenError("argument of %s: %s given, %s expected" % (e[1], t_, at))
+                    bs += b_
+                    cs.append(c_)
+                self.use_opaque(pname, "fn:%s->%s" % (",".join(atys), rty) if atys else rty)
+                return bs, "(%s)" % " ".join([pname] + cs) if cs else pname, rty
+            if e[1] == "Some" and len(e[2]) == 1:
+                b1, a, ta = self.expr(e[2][0], env)
+                if ta != "id":
+                    raise GenError("Some(..) of a %s is outside the fragment" % ta)
+                return b1, "(Some %s)" % a, "opt_id"
+            if e[1] == "Ok" and len(e[2]) == 1 and e[2] != [("unit",)] and self.cur["ret"] == "result:id":
+                b1, a, ta = self.expr(e[2][0], env)
+                if ta != "id":
+                    raise GenError("Ok(..) of a %s is outside the fragment" % ta)
+                return b1, "(OkR %s)" % a, "result:id"
             if e[1] in self.ext_fns:
                 qual, m2 = self.ext_fns[e[1]]
                 bs, cs = self.call_args(e[1], e[2], m2, env)
                 x = self.fresh()
                 return bs + [(x, "%s prof %s" % (qual, " ".join(cs)))], x, m2["ret"]
             if e[1] == "Ok" and e[2] == [("unit",)]:
-                if not self.tagged():
+                if self.cur["ret"] != "result_unit":
                     raise GenError("Ok(()) in a function that does not return Result<(), _>")
+                if self.state_param() and not self.depth and not self.pure:
+                    return [], "(OkR %s)" % self.state_param(), "result_unit"     # the updated value of the &mut parameter
                 return [], "(OkR tt)", "result_unit"
             if e[1] in ("min", "max"):
                 return Gen.expr(self, e, env, want)
@@ -1505,8 +1699,24 @@ class GenR(Gen):
                 if not tv.startswith("vec:"):
                     raise GenError("len of a %s" % tv)
                 return b, "(len_of %s)" % v, "usize"
+            if name in ("as_ref", "clone") and not args:
+                b, v, tv = self.expr(recv, env)
+                if tv not in ("id", "opt_id"):
+                    raise GenError(".%s() of a %s is outside the fragment" % (name, tv))
+                return b, v, tv                   # a borrow / a copy of an opaque value is the value
+            if (name == "unwrap" and not args) or (name == "expect" and len(args) == 1 and args[0][0] == "str"):
+                b, v, tv = self.expr(recv, env)
+                if tv != "opt_id":
+                    raise GenError(".%s() of a %s is outside the fragment" % (name, tv))
+                x = self.fresh()
+                return b + [(x, "expect_some %s" % v)], x, "id"
             if not (recv == ("var", "self") and self.owner == self.validator):
                 b, v, tv = self.expr(recv, env)
+                if tv.startswith("struct:") and (tv[7:], name) in self.coq_fn:
+                    m2 = self.methods2[(tv[7:], name)]
+                    bs, cs = self.call_args(name, args, m2, env)
+                    x = self.fresh()
+                    return b + bs + [(x, " ".join([self.coq_fn[(tv[7:], name)], "prof", v] + cs))], x, m2["ret"]
                 if tv.startswith("struct:") and (tv[7:], name) in self.methods2:
                     m2 = self.methods2[(tv[7:], name)]
                     if m2["ret"] == "result_unit":
@@ -1518,9 +1728,30 @@ class GenR(Gen):
             raise GenError("method call .%s(..) is outside the fragment" % name)
         if k == "try":
             return self.try_expr(e[1], env)
+        if k == "bin" and e[1] in ("&&", "||"):
+            b1, a, ta = self.expr(e[2], env)
+            b2, c, tc = self.expr(e[3], env)
+            if ta != "bool" or tc != "bool":
+                raise GenError("%s on %s and %s" % (e[1], ta, tc))
+            if not b2:
+                return b1, "(%s %s %s)" % (a, e[1], c), "bool"
+            # the right operand is evaluated only when the left one does not decide
+            if any(len(b_) > 2 for b_ in b2):
+                raise GenError("`?` on the right of %s is outside the fragment" % e[1])
+            x = self.fresh()
+            right = self.emit_binds(b2, "Val %s" % c)
+            code = "(if %s\nthen (%s)\nelse Val false)" % (a, right) if e[1] == "&&" else \
+                   "(if %s\nthen Val true\nelse (%s))" % (a, right)
+            return b1 + [(x, code)], x, "bool"
         if k == "bin" and e[1] in ("==", "!="):
             save = self.tmp
             b1, a, ta = self.expr(e[2], env)
+            if ta in ("id", "opt_id"):
+                b2, c, tc = self.expr(e[3], env)
+                if tc != ta:
+                    raise GenError("%s between %s and %s" % (e[1], ta, tc))
+                code = "(%s =? %s)" % (a, c) if ta == "id" else "(opt_id_eqb %s %s)" % (a, c)
+                return b1 + b2, code if e[1] == "==" else "(negb %s)" % code, "bool"
             if ta.startswith("enum:"):
                 b2, c, tc = self.expr(e[3], env)
                 if tc != ta:
@@ -1580,6 +1811,8 @@ class GenR(Gen):
         """`e?` for the forms of e that are inside the fragment"""
         if self.pure:
             raise GenError("`?` inside a block used as a value is outside the fragment")
+        if getattr(self, "updated", False):
+            raise GenError("`?` after an update of a `&mut` parameter is outside the fragment")
         if not self.tagged():
             raise GenError("`?` in a function that does not return Result<(), _>")
         if inner[0] == "mcall" and inner[2] == "map_err":
@@ -1592,6 +1825,15 @@ class GenR(Gen):
             inner = inner[1]
             if not (inner[0] == "mcall" and inner[1] == ("var", "self")):
                 raise GenError("map_err on anything but a call of a translated method is outside the fragment")
+        for ast, vars_, pname, pty in self.opaque:
+            if inner == ast and pty.startswith("comp:"):
+                # the answer of a method that is translated elsewhere, on exactly the parameters of this function
+                for v, vt in vars_.items():
+                    if env.get(v) != vt or v in self.rebound:
+                        raise GenError("%s: %s is not the parameter of type %s here" % (pname, v, vt))
+                self.use_opaque(pname, pty)
+                x = self.fresh()
+                return [(x, pname, "tryR")], x, {"comp:result_unit": "unit"}[pty]
         if inner[0] == "mcall" and inner[2] == "ok_or_else" and len(inner[3]) == 1 and inner[1][0] == "mcall" \
                 and inner[1][2] in ("checked_add", "checked_sub", "checked_mul") and len(inner[1][3]) == 1:
             clo = inner[3][0]
@@ -1619,7 +1861,8 @@ class GenR(Gen):
             bs, cs = self.call_args(inner[2], inner[3], m2, env)
             extra = self.pass_opaque((self.validator, inner[2]))
             x = self.fresh()
-            return bs + [(x, " ".join(["gen_%s prof warn policy" % inner[2]] + extra + cs), "tryR")], x, "unit"
+            head_ = "gen_%s prof warn policy" % inner[2] if self.policy_struct else "gen_%s prof warn" % inner[2]
+            return bs + [(x, " ".join([head_] + extra + cs), "tryR")], x, "unit"
         raise GenError("`?` on %r is outside the fragment" % (inner,))
 
     def emit_binds(self, binds, k):
@@ -1659,6 +1902,10 @@ class GenR(Gen):
                 out += self.assigned2(s[4])
             elif s[0] == "iflet_stmt":
                 out += self.assigned2(s[3][0])
+            elif s[0] == "match_opt":
+                out += self.assigned2(s[2][0]) + self.assigned2(s[4][0])
+            elif s[0] == "attr":
+                out += self.assigned2([s[2]])
         seen = []
         for x in out:
             if x not in seen:
@@ -1692,7 +1939,7 @@ class GenR(Gen):
             b, c, t = self.expr(e, env, ty)
             if ty and ty != t:
                 raise GenError("let %s: declared %s, expression has %s" % (x, ty, t))
-            if t == "result_unit":
+            if t.startswith("result"):
                 raise GenError("binding a Result is outside the fragment")
             self.binder(x, c, env=env)
             self.rebound.add(x)
@@ -1715,8 +1962,9 @@ class GenR(Gen):
             raise GenError("assignment target %r is outside the fragment" % (tgt,))
         if kind == "expr":
             e = s[1]
-            if e[0] == "macro" and e[1] in ("debug", "trace", "info", "warn"):
-                return self.stmts(rest, env, k)      # logging: no effect on the state; arguments not evaluated
+            if e[0] == "macro" and e[1] in self.LOGGING:
+                self.logging_ok(e, env)
+                return self.stmts(rest, env, k)      # logging: no effect on the state
             if e[0] == "macro" and e[1] == "policy_err":
                 args = e[2]
                 if not self.tagged() or self.pure:
@@ -1727,6 +1975,8 @@ class GenR(Gen):
                 tagex = pp.expr()
                 if pp.peek()[0] != "eof":
                     raise GenError("policy tag %r is outside the fragment" % (args[1],))
+                if getattr(self, "updated", False):
+                    raise GenError("policy_err! after an update of a `&mut` parameter is outside the fragment")
                 tag = self.tag_code(tagex, env)
                 fb = self.fmt_arg_binds(args[2:], env)       # the message is formatted before the filter is asked
                 x = self.fresh()
@@ -1734,7 +1984,66 @@ class GenR(Gen):
             if e[0] == "try":
                 b, c, t = self.expr(e, env)
                 return self.emit_binds(b, self.stmts(rest, env, k))
+            sp = self.state_param()
+            if e[0] == "mcall" and sp and e[1] == ("var", sp) and env.get(sp, "").startswith("struct:") \
+                    and (env[sp][7:], e[2]) in self.coq_fn and self.methods2[(env[sp][7:], e[2])]["selfmode"] == "mut":
+                # p.m(args); for the `&mut S` parameter p and a translated `&mut self` method of S without a value
+                m2 = self.methods2[(env[sp][7:], e[2])]
+                if m2["ret"] != "unit" or self.pure or self.depth:
+                    raise GenError("an update of %s inside a block, or through a method with a value, is outside the fragment" % sp)
+                if len(e[3]) != len(m2["params"]):
+                    raise GenError("call of %s with %d arguments" % (e[2], len(e[3])))
+                bs, cs = [], []
+                for a_, (pn, pt) in zip(e[3], m2["params"]):
+                    b_, c_, t_ = self.expr(a_, env, pt)
+                    if t_ != pt:
+                        raise GenError("argument %s of %s: %s given, %s expected" % (pn, e[2], t_, pt))
+                    bs += b_
+                    cs.append(c_)
+                self.updated = True
+                return self.emit_binds(bs, "%s <- %s ;;\n%s" % (sp, " ".join([self.coq_fn[(env[sp][7:], e[2])], "prof", sp] + cs),
+                                                                 self.stmts(rest, env, k)))
             raise GenError("statement %r is outside the fragment" % (e,))
+        if kind == "attr":
+            # #[cfg(..)] : the statement exists in some builds only; accepted on a statement the translation drops
+            inner = s[2]
+            if not (s[1].startswith("cfg(") and inner[0] == "expr" and inner[1][0] == "macro" and inner[1][1] in self.LOGGING):
+                raise GenError("attribute #[%s] on a statement that is not logging is outside the fragment" % s[1])
+            self.logging_ok(inner[1], env)
+            return self.stmts(rest, env, k)
+        if kind == "iflet_stmt":
+            # if let Some(x) = &opt { only logging } : dropped.  The block may bind the results of the listed helpers
+            # (lazy iterators over the HTLC lists), which only the log lines consume.
+            b, c, t = self.expr(s[2], env)
+            if b or t != "opt_id" or s[3][1] is not None:
+                raise GenError("`if let` on anything but an Option of an opaque value is outside the fragment")
+            for st in s[3][0]:
+                if st[0] == "expr" and st[1][0] == "macro" and st[1][1] in ("debug", "trace", "info", "warn"):
+                    continue
+                if st[0] == "let" and st[2] is None and st[3][0] == "mcall" and st[3][1] == ("var", s[1]) \
+                        and st[3][2] in self.lazy_helpers and all(a[0] == "var" and a[1] in env for a in st[3][3]):
+                    continue
+                raise GenError("an `if let` block that does more than log is outside the fragment: %r" % (st,))
+            return self.stmts(rest, env, k)
+        if kind == "match_opt":
+            if not self.tagged() or self.pure:
+                raise GenError("a match statement outside the body of a function that returns Result")
+            for blk in (s[2], s[4]):
+                if self.assigned2(blk[0]):
+                    raise GenError("a match arm that assigns a variable of the enclosing block is outside the fragment")
+            b, c, t = self.expr(s[1], env)
+            if t != "opt_id":
+                raise GenError("match on a %s is outside the fragment" % t)
+            env_s = dict(env)
+            env_s[self.binder(s[3], env=env)] = "id"
+            self.rebound.add(s[3])
+            self.depth += 1
+            none_t = self.stmts(s[2][0], env, lambda e2: "Val (OkR tt)")
+            some_t = self.stmts(s[4][0], env_s, lambda e2: "Val (OkR tt)")
+            self.depth -= 1
+            x = self.fresh()
+            return self.emit_binds(b, "%s <-? (match %s with\n| None => (%s)\n| Some %s => (%s)\nend) ;;\n%s" % (
+                x, c, none_t, s[3], some_t, self.stmts(rest, env, k)))
         if kind == "if_stmt":
             if self.assigned2(s[2][0]):
                 raise GenError("an `if` block that assigns a variable of the enclosing block is outside the fragment")
@@ -1743,7 +2052,9 @@ class GenR(Gen):
             b, c, t = self.expr(s[1], env)
             if t != "bool":
                 raise GenError("if on a non-boolean")
+            self.depth += 1
             inside = self.stmts(s[2][0], env, lambda e2: "Val (OkR tt)")
+            self.depth -= 1
             x = self.fresh()
             return self.emit_binds(b, "%s <-? (if %s\nthen (%s)\nelse Val (OkR tt)) ;;\n%s" % (
                 x, c, inside, self.stmts(rest, env, k)))
@@ -1766,10 +2077,26 @@ class GenR(Gen):
             env_b = dict(env)
             env_b[self.binder(var, env=env)] = "struct:" + tv[4:]
             self.rebound.add(var)
+            self.depth += 1
             inner = self.stmts(body, env_b, lambda e2: "Val (OkR %s)" % carried[0])
+            self.depth -= 1
             loop = "fold_r (fun %s %s =>\n%s) %s %s" % (carried[0], var, inner, v, carried[0])
             return self.emit_binds(b, "%s <-? %s ;;\n%s" % (carried[0], loop, self.stmts(rest, env, k)))
         raise GenError("statement %r is outside the fragment" % (s,))
+
+    def state_param(self):
+        """the `&mut S` parameter a function updates through translated `&mut self` methods of S, if any: the function's
+        Ok then carries the updated value.  An error after an update would have to hand the updated value on as well:
+        refused (see policy_err! / `?`)."""
+        return self.cur.get("state_param")
+
+    def logging_ok(self, e, env):
+        """debug!/trace!/info!/warn!/dbgvals! do not evaluate their arguments unless the level is enabled and have no
+        effect on the answer.  policy_log! formats its message whatever the level: its arguments must be variables."""
+        if e[1] == "policy_log":
+            for toks in e[2][3:]:
+                if toks and not (len(toks) == 1 and toks[0][0] == "id" and toks[0][1] in env):
+                    raise GenError("policy_log! with an argument that is not a variable is outside the fragment")
 
     def block_value(self, blk, env, m):
         ss, tail = blk
@@ -1791,15 +2118,22 @@ class GenR(Gen):
 
     def method2(self, owner, m):
         self.cur, self.owner = m, owner
-        self.tmp, self.pure = 0, 0
+        self.tmp, self.pure, self.depth, self.updated = 0, 0, 0, False
         self.opaque_used, self.guards, self.rebound = [], set(), set()
+        m.pop("state_param", None)
+        muts = [x for x in m.get("mut_params", []) if self.uses_update(m["body"], x)]
+        if len(muts) > 1 or (muts and m["ret"] != "result_unit"):
+            raise GenError("fn %s: more than one updated `&mut` parameter, or one in a function that does not return Result<(), _>" % m["name"])
+        if muts:
+            m["state_param"] = muts[0]
         if m["selfmode"] != "ref":
             raise GenError("fn %s: only `&self` methods are inside the fragment" % m["name"])
         env = {}
         for x, t in m["params"]:
             env[self.binder(x)] = t
         if owner == self.validator:
-            head = ["(prof : profile)", "(warn : string -> bool)", "(policy : %s)" % self.policy_struct]
+            head = ["(prof : profile)", "(warn : string -> bool)"] + \
+                   (["(policy : %s)" % self.policy_struct] if self.policy_struct else [])
             name = "gen_%s" % m["name"]
         else:
             env["self"] = "struct:" + owner
@@ -1811,7 +2145,24 @@ class GenR(Gen):
         if owner != self.validator:
             head.append("(self : %s)" % owner)
         head += ["(%s : %s)" % (x, self.coq_type(t)) for x, t in m["params"]]
-        return "Definition %s %s : trap %s :=\n%s." % (name, " ".join(head), self.coq_type(m["ret"]), indent(body))
+        rt = self.coq_type(m["ret"])
+        if m.get("state_param"):
+            rt = "(result %s)" % self.coq_type(dict(m["params"])[m["state_param"]])
+        return "Definition %s %s : trap %s :=\n%s." % (name, " ".join(head), rt, indent(body))
+
+    def uses_update(self, blk, x):
+        """does the block call a method on the variable x as a statement (at any depth)?"""
+        def walk(ss):
+            for s_ in ss:
+                if s_[0] == "expr" and s_[1][0] == "mcall" and s_[1][1] == ("var", x):
+                    return True
+                for sub in s_[1:]:
+                    if isinstance(sub, tuple) and len(sub) == 2 and isinstance(sub[0], list) and walk(sub[0]):
+                        return True
+                    if isinstance(sub, list) and sub and isinstance(sub[0], tuple) and walk(sub):
+                        return True
+            return False
+        return walk(blk[0])
 
 
 def check_error_helpers(core):
@@ -1927,6 +2278,94 @@ def _generate_commitment_policy(repo):
             "parameters": [p for _, _, p, _ in opaque] + ["warn (the policy filter)"]}
 
 
+
+def generate_enforcement_rules(repo):
+    try:
+        return _generate_enforcement_rules(repo)
+    except (IndexError, KeyError, ValueError, TypeError, AttributeError, RecursionError, OSError) as e:
+        raise GenError("the source could not be read (%s: %s)" % (type(e).__name__, e))
+
+
+def _generate_enforcement_rules(repo):
+    """Gen/EnforcementRulesGen.v: the commitment-number rules of the validator.  EnforcementState is the record of
+    Gen/EnforcementGen.v (generate_enforcement must have run in the same pass); points, secrets, commitment contents,
+    the channel setup and the chain state are opaque identities here."""
+    core = os.path.join(repo, "vls-core", "src")
+    rd = lambda *p: open(os.path.join(core, *p)).read()
+    sv, va, ov, tx = rd("policy", "simple_validator.rs"), rd("policy", "validator.rs"), rd("policy", "onchain_validator.rs"), rd("tx", "tx.rs")
+    check_error_helpers(core)
+    uses = use_table(sv)
+    for n, mod in {"EnforcementState": "super::validator", "PublicKey": "bitcoin::secp256k1", "Secp256k1": "bitcoin::secp256k1",
+                   "SecretKey": "bitcoin::secp256k1", "CommitmentInfo2": "crate::tx::tx"}.items():
+        if uses.get(n) != mod:
+            raise GenError("simple_validator.rs: %s is expected from %s, found %s" % (n, mod, uses.get(n)))
+    # `==` on a commitment content is the derived (structural) one: equal iff the same value
+    m = re.search(r"((?:\n#\[[^\n]*\])*)\npub struct CommitmentInfo2\s*\{", tx)
+    if not m or not re.search(r"#\[derive\([^)]*\bPartialEq\b[^)]*\)\]", m.group(1)) \
+            or re.search(r"\bimpl\s+PartialEq\b[^{]*\bfor\s+CommitmentInfo2\b", tx):
+        raise GenError("tx/tx.rs: CommitmentInfo2 no longer derives PartialEq")
+    # the two provided methods of the trait are not overridden by the validators in use
+    for n in ("get_current_holder_commitment_info", "set_next_holder_commit_num"):
+        for src_, where in ((sv, "simple_validator.rs"), (ov, "onchain_validator.rs")):
+            if re.search(r"\bfn\s+%s\b" % n, blank(src_)):
+                raise GenError("%s overrides Validator::%s" % (where, n))
+    known = {"EnforcementState": "struct:EnforcementState", "PublicKey": "path", "Secp256k1": "path"}
+    estate_fields = struct_fields(va, "EnforcementState", skip_unknown=True)      # as in generate_enforcement
+    structs = {"EnforcementState": estate_fields}
+    methods, texts = {}, {}
+    look = ["get_previous_counterparty_point", "get_previous_counterparty_commit_info"]
+    for n in look:                                                                   # translated in Gen/EnforcementGen.v
+        methods[("EnforcementState", n)] = P(lex(fn_source(va, "EnforcementState", n))).fn()
+    plan = [("validate_counterparty_commitment_tx", sv, "impl Validator for SimpleValidator", "policy/simple_validator.rs"),
+            ("validate_holder_commitment_tx", sv, "impl Validator for SimpleValidator", "policy/simple_validator.rs"),
+            ("validate_counterparty_revocation", sv, "impl Validator for SimpleValidator", "policy/simple_validator.rs"),
+            ("get_current_holder_commitment_info", va, "pub trait Validator", "policy/validator.rs"),
+            ("set_next_holder_commit_num", va, "pub trait Validator", "policy/validator.rs")]
+    look_mut = ["set_next_holder_commit_num"]
+    for n in look_mut:                                                               # translated in Gen/EnforcementGen.v
+        methods[("EnforcementState", n)] = P(lex(fn_source(va, "EnforcementState", n))).fn()
+    for n, src, header, _ in plan:
+        texts[n] = method_source(src, None, n, header=header)
+        methods[("Validator", n)] = P(lex(texts[n]), known).fn()
+    v = lambda x: ("var", x)
+    call = ("mcall", v("self"), "validate_commitment_tx", [v("estate"), v("commit_num"), v("commitment_point"), v("setup"), v("cstate"), v("info2")])
+    opaque = [(call, {"estate": "struct:EnforcementState", "commit_num": "u64", "commitment_point": "id", "setup": "id",
+                      "cstate": "id", "info2": "id"}, "validate_commitment_tx_answer", "comp:result_unit")]
+    g = GenR(structs, {}, methods, {}, {}, opaque, "Validator", None, known)
+    g.coq_struct = {"EnforcementState": ("EnforcementGen.res", "EnforcementGen.res")}
+    g.coq_fn = {("EnforcementState", n): "EnforcementGen.gen_" + n for n in look + look_mut}
+    g.opaque_fns = {"PublicKey::from_secret_key": ("public_key_from_secret_key", ["id", "id"], "id"),
+                    "Secp256k1::signing_only": ("secp256k1_signing_only", [], "id")}
+    g.lazy_helpers = ("delta_offered_htlcs", "delta_received_htlcs")
+    out = []
+    for n, _, header, where in plan:
+        out.append("(* %s (%s, `%s`)\n%s *)\n%s" % (n, where, header, "\n".join(
+            "   " + l for l in texts[n].strip().replace("(*", "( *").replace("*)", "* )").splitlines()),
+            g.method2("Validator", methods[("Validator", n)])))
+    text = ("(** GENERATED by tools/gen_rustfn.py - do not edit.  Statement-by-statement translation of the commitment-number\n"
+            "    rules of the validator:\n"
+            "      validate_counterparty_commitment_tx, validate_holder_commitment_tx, validate_counterparty_revocation\n"
+            "        (`impl Validator for SimpleValidator`, policy/simple_validator.rs) - whole bodies; the answer of the call\n"
+            "        `self.validate_commitment_tx(estate, commit_num, commitment_point, setup, cstate, info2)` (translated in\n"
+            "        Gen/CommitmentPolicyGen.v) is the parameter [validate_commitment_tx_answer]; the leading\n"
+            "        `if let Some(current) = .. { log the HTLC deltas }` block, the debugging guard and the logging are dropped;\n"
+            "      get_current_holder_commitment_info (provided method of `trait Validator`, policy/validator.rs; not overridden).\n"
+            "    EnforcementState is the record of Gen/EnforcementGen.v, whose look-ups get_previous_counterparty_point / _commit_info\n"
+            "    are called.  Points, secrets, commitment contents, the setup and the chain state are opaque identities; `==` on\n"
+            "    them is equality of identities.  [public_key_from_secret_key] (PublicKey::from_secret_key) and\n"
+            "    [secp256k1_signing_only] (the context) are uninterpreted parameters.  The meaning of every construct is in\n"
+            "    Base/Rust.v. *)\n"
+            "From Coq Require Import String.\nFrom VLS Require Export Base.Rust.\nFrom VLS Require Gen.EnforcementGen.\n\n"
+            + "\n\n".join(out) + "\n")
+    outp = os.path.join(ROOT, "coq", "theories", "Gen", "EnforcementRulesGen.v")
+    if not os.path.exists(outp) or open(outp).read() != text:
+        open(outp, "w").write(text)
+    return {"translated": ["Validator(SimpleValidator)::" + n for n, _, _, _ in plan],
+            "record": "EnforcementGen.res", "fields": [f for f, _ in estate_fields],
+            "parameters": ["validate_commitment_tx_answer", "public_key_from_secret_key", "secp256k1_signing_only",
+                           "warn (the policy filter)"]}
+
+
 if __name__ == "__main__":
     repo = sys.argv[1] if len(sys.argv) > 1 else "/repo"
     print(generate_velocity(repo))
@@ -1935,3 +2374,4 @@ if __name__ == "__main__":
     print(generate_monitor(repo))
     print(generate_txutil(repo))
     print(generate_commitment_policy(repo))
+    print(generate_enforcement_rules(repo))
